@@ -116,3 +116,122 @@ func ZZ_C07_RealParse() {
 		zz.Assert(errs[i].LineNumber() == perrs[i].LineNumber() && errs[i].Position() == perrs[i].Position() && errs[i].Code() == perrs[i].Code(), "parallel-same-errors")
 	}
 }
+
+func zzC09Digits(name string, k int) string {
+	s := zz.String(name, k)
+	for i := 0; i < k; i++ {
+		zz.Assume(zz.And(s[i] >= '0', s[i] <= '9'))
+	}
+	return s
+}
+
+// ZZ_C09_PrintValues: one record whose literals have symbolic digits - the year of
+// the date (a century window, both separators), a should-total, and one entry (range with
+// day shifts, open range with 1-3 placeholder characters, signed duration) - or
+// (kind 3) whose summary lines are arbitrary bytes.  Whatever the parser accepts,
+// the printed file must be valid, denote the same values in the same notation and
+// be a fixed point of printing.
+func ZZ_C09_PrintValues() {
+	sep := []string{"-", "/"}[zz.Choose(2)]
+	text := "2020" + sep + "06" + sep + "05"
+	if zz.Param("kind") == 4 {
+		c := zz.Param("century") // the calendar arithmetic behind date validation needs century windows (see C15 / C16)
+		text = string(rune('0'+c/10)) + string(rune('0'+c%10)) + zzC09Digits("y", 2) + sep + "06" + sep + "05"
+		if zz.Choose(2) == 1 {
+			text += " (" + []string{"", "-"}[zz.Choose(2)] + zzC09Digits("sd", 1) + "h" + zzC09Digits("sm", 2) + "m!)"
+		}
+	}
+	text += "\n"
+	switch zz.Param("kind") {
+	case 0:
+		dash := []string{" - ", "-"}[zz.Choose(2)]
+		text += "    " + []string{"", "<"}[zz.Choose(2)] + zzC09Digits("sh", 2) + ":" + []string{"00", "07", "59"}[zz.Choose(3)] + dash +
+			zzC09Digits("eh", 2) + ":" + []string{"00", "59"}[zz.Choose(2)] + []string{"", ">"}[zz.Choose(2)] + "\n"
+	case 1:
+		text += "    " + zzC09Digits("sh", 1) + ":" + zzC09Digits("sm", 2) + []string{"", "am", "pm"}[zz.Choose(3)] +
+			[]string{" - ", "-"}[zz.Choose(2)] + []string{"?", "??", "???"}[zz.Choose(3)] + "\n"
+	case 2:
+		text += "    " + []string{"", "-", "+"}[zz.Choose(3)] + zzC09Digits("h", 2) + "h" + zzC09Digits("m", 2) + "m\n"
+	case 3:
+		s := zz.String("sum", zz.Param("n"))
+		for i := 0; i < len(s); i++ {
+			zz.Assume(s[i] != '\n')
+		}
+		text += s + "\n    1h " + s + "\n"
+	case 4:
+		text += "    1h\n"
+	}
+	rs, _, errs := parser.NewSerialParser().Parse(text)
+	if errs != nil {
+		zz.Stop()
+	}
+	out := zzPrint(rs)
+	zz.Observe("printed", out)
+	rs2, _, errs2 := parser.NewSerialParser().Parse(out)
+	// Finding F8 (recorded, see known_findings.json): a summary line whose text ends in a
+	// carriage return cannot survive being printed with LF line endings.  That input
+	// class gets an assertion id of its own so that nothing else hides behind it.
+	if len(rs) == 1 {
+		crTail := false
+		tails := func(ls []string) {
+			for _, l := range ls {
+				if len(l) > 0 && l[len(l)-1] == '\r' {
+					crTail = true
+				}
+			}
+		}
+		tails(rs[0].Summary().Lines())
+		for _, e := range rs[0].Entries() {
+			tails(e.Summary().Lines())
+		}
+		if crTail {
+			zz.Assert(errs2 == nil && len(rs2) == 1 && zzSameLines(rs[0].Summary().Lines(), rs2[0].Summary().Lines()) && zzPrint(rs2) == out,
+				"summary-ending-in-CR-survives-print")
+			return
+		}
+	}
+	zz.Assert(errs2 == nil, "printed-file-is-valid")
+	if errs2 != nil {
+		return
+	}
+	zz.Assert(len(rs2) == len(rs) && len(rs) == 1, "same-number-of-records")
+	if len(rs2) != 1 || len(rs) != 1 {
+		return
+	}
+	a, b := rs[0], rs2[0]
+	zz.Assert(a.Date().ToString() == b.Date().ToString() && a.Date().ToString() == text[:10], "date-notation-kept")
+	zz.Assert(a.Date().IsEqualTo(b.Date()), "date-kept")
+	zz.Assert(a.ShouldTotal().InMinutes() == b.ShouldTotal().InMinutes(), "should-total-kept")
+	zz.Assert(len(a.Entries()) == len(b.Entries()), "same-entries")
+	if len(a.Entries()) == len(b.Entries()) {
+		for j := range a.Entries() {
+			zz.Assert(zzEntryText(a.Entries()[j]) == zzEntryText(b.Entries()[j]), "entry-notation-kept")
+			zz.Assert(a.Entries()[j].Duration().InMinutes() == b.Entries()[j].Duration().InMinutes(), "entry-value-kept")
+			la, lb := a.Entries()[j].Summary().Lines(), b.Entries()[j].Summary().Lines()
+			same := len(la) == len(lb)
+			for k := 0; same && k < len(la); k++ {
+				same = la[k] == lb[k]
+			}
+			zz.Assert(same, "entry-summary-kept")
+		}
+	}
+	la, lb := a.Summary().Lines(), b.Summary().Lines()
+	same := len(la) == len(lb)
+	for k := 0; same && k < len(la); k++ {
+		same = la[k] == lb[k]
+	}
+	zz.Assert(same, "record-summary-kept")
+	zz.Assert(zzPrint(rs2) == out, "print-is-a-fixed-point")
+}
+
+func zzSameLines(a, b []string) bool {
+	if len(a) != len(b) {
+		return false
+	}
+	for i := range a {
+		if a[i] != b[i] {
+			return false
+		}
+	}
+	return true
+}
